@@ -592,3 +592,53 @@
         crate::vcover!(closed == 2);
         core::mem::forget(w);
     }
+
+    /// C03.xz.unpadded / C02.xz.index / C02.xz.acct: finish_current_block from any bookkeeping state: the block's filter
+    /// chain is finished (here: emits PL_EMIT bytes), the compressed data is padded with zeros to a multiple of four,
+    /// the Check field follows, and ONE index record is appended with unpadded size = bytes from the block start
+    /// (header included) to the end of the compressed data + check size, and uncompressed size = the bytes of THIS
+    /// block (not of the stream); the per-block counter restarts.
+    fn xz_finish_block(check: CheckType, emit: usize) {
+        crate::vk::pl_reset(emit);
+        let mut w = XZWriter::new(vk::Sink::<64>::new(), opts(check, 4096)).unwrap();
+        let start: u64 = vk::any();
+        let hdr: u64 = 12;
+        let u: u64 = vk::any();
+        let t: u64 = vk::any();
+        vk::assume(start % 4 == 0 && start < 1 << 40 && u >= 1 && u < 1 << 40 && t >= u && t < 1 << 41);
+        w.header_written = true;
+        w.current_block_start_pos = start;
+        w.compressed_bytes_written.set(start + hdr);
+        w.block_uncompressed_size = u;
+        w.total_uncompressed_pos = t;
+        w.writer = Box::new(PayloadW { out: SharedWriter { inner: Rc::clone(&w.original_writer), compressed_bytes_written: Rc::clone(&w.compressed_bytes_written) } });
+        let recs0 = w.index_records.len();
+        assert!(w.finish_current_block().is_ok());
+        let clen: u64 = match check { CheckType::None => 0, CheckType::Crc32 => 4, CheckType::Crc64 => 8, CheckType::Sha256 => 32 };
+        let pad = (4 - emit % 4) % 4;
+        assert!(w.index_records.len() == recs0 + 1);
+        let r = &w.index_records[recs0];
+        assert!(r.unpadded_size == hdr + emit as u64 + clen, "index Unpadded Size is not header + compressed data + check");
+        assert!(r.uncompressed_size == u, "index Uncompressed Size is not the number of bytes in this block");
+        assert!(w.block_uncompressed_size == 0 && w.total_uncompressed_pos == t);
+        assert!(w.compressed_bytes_written.get() == start + hdr + (emit + pad) as u64 + clen);
+        {
+            let s = w.original_writer.borrow();
+            assert!(s.len == emit + pad + clen as usize);
+            let mut i = 0;
+            while i < 8 { if i < emit { assert!(s.buf[i] == 0xAA); } else if i < emit + pad { assert!(s.buf[i] == 0); } i += 1; }
+        }
+        core::mem::forget(w);
+    }
+    #[kani::proof]
+    #[kani::unwind(10)]
+    //@ERR
+    fn c03_xz_finish_block_crc32_e1() { xz_finish_block(CheckType::Crc32, 1); }
+    #[kani::proof]
+    #[kani::unwind(10)]
+    //@ERR
+    fn c03_xz_finish_block_none_e4() { xz_finish_block(CheckType::None, 4); }
+    #[kani::proof]
+    #[kani::unwind(10)]
+    //@ERR
+    fn c03_xz_finish_block_crc64_e2() { xz_finish_block(CheckType::Crc64, 2); }
